@@ -578,7 +578,13 @@ func stress(idx int64, r *rand.Rand) {
 			if stable >= 2 {
 				buf := make([]byte, 1<<20)
 				dump := string(buf[:runtime.Stack(buf, true)])
-				if st.GetBusyCount() < capacity && strings.Contains(dump, "c10.stress.func1") {
+				workersInside := false
+				for _, b := range strings.Split(dump, "\n\n") {
+					if strings.Contains(b, "c10.stress.func") && (strings.Contains(b, ").Acquire(") || strings.Contains(b, ").OnSuccess(") || strings.Contains(b, ").OnIgnore(") || strings.Contains(b, ").OnDropped(")) {
+						workersInside = true
+					}
+				}
+				if st.GetBusyCount() < capacity && workersInside {
 					rt.Violation(fmt.Sprintf("C10/%s/stress/callers-stuck-with-capacity-free", k), idx, rt.J{"kind": k, "capacity": capacity, "goroutines": nG,
 						"busy": st.GetBusyCount(), "grants_so_far": cur, "stacks": dump[:min(len(dump), 6000)]})
 					rt.Flush()
